@@ -255,11 +255,13 @@ def skel_tla(skel):
         rows.append('[n |-> %d, k |-> "%s", from |-> %d, v |-> %d, c |-> %d]' % (n, k, frm, v, c))
     return '<<' + ', '.join(rows) + '>>'
 
-def net_cfg(name, byz=(2,), h=2, maxview=1, amev=False, dev=True, weaken=(), invs=('Agreement',), n=4, maxsteps=60, skel=()):
+def net_cfg(name, byz=(2,), h=2, maxview=1, amev=False, dev=True, weaken=(), invs=('Agreement',), n=4, maxsteps=60, skel=(), props=()):
     b = lambda v: 'TRUE' if v else 'FALSE'
     txt = ('SPECIFICATION Spec\nCONSTANTS\n  N = %d\n  H = %d\n  MaxView = %d\n  Byz = {%s}\n  AmevOn = %s\n  DevEarlyCommitUnverified = %s\n'
            '  Weaken = {%s}\n  Emit = FALSE\n  EmitLen = 0\n  MaxSteps = %d\n  Skel <- %s\nCONSTRAINT Bound\nVIEW View\nINVARIANTS %s\nCHECK_DEADLOCK FALSE\n'
            % (n, h, maxview, ', '.join(str(x) for x in byz), b(amev), b(dev), ', '.join('"%s"' % w for w in weaken), maxsteps, 'SkelDef' if skel else 'NoSkel', ' '.join(invs)))
+    if props:
+        txt += 'PROPERTY ' + ' '.join(props) + '\n'
     it = dict(name=name, module='MC_Net', cfg=txt)
     if skel:   # the skeleton is a definition of a generated root module (a configuration file cannot hold sequences of records)
         it['root'] = ('MC_NetSkel', '---- MODULE MC_NetSkel ----\nEXTENDS MC_Net\nSkelDef == %s\n====\n' % skel_tla(skel))
@@ -319,13 +321,13 @@ def design_net(tier, wd, vh, seed=1):
     num, cap = (6000, 600) if tier == 'quick' else (400000, 3000)
     runs = [
         (net_cfg('net-kf1-regression', byz=(2,), maxview=0, dev=True), dict(num=400000, depth=40, seed=seed, dump=True), 300),
-        (net_cfg('net-nodev-byz-primary0', byz=(2,), dev=False, invs=('Agreement', 'Certificates')), dict(num=num, depth=45, seed=seed + 1, dump=True), cap),
-        (net_cfg('net-nodev-byz-primary1', byz=(1,), dev=False, invs=('Agreement', 'Certificates')), dict(num=num, depth=45, seed=seed + 2, dump=True), cap),
-        (net_cfg('net-nodev-amev', byz=(2,), dev=False, amev=True, invs=('Agreement',)), dict(num=num, depth=45, seed=seed + 3, dump=True), cap),
+        (net_cfg('net-nodev-byz-primary0', byz=(2,), dev=False, invs=('Agreement', 'Certificates', 'AbsCertificate'), props=('AbsOneCommit',)), dict(num=num, depth=45, seed=seed + 1, dump=True), cap),
+        (net_cfg('net-nodev-byz-primary1', byz=(1,), dev=False, invs=('Agreement', 'Certificates', 'AbsCertificate'), props=('AbsOneCommit',)), dict(num=num, depth=45, seed=seed + 2, dump=True), cap),
+        (net_cfg('net-nodev-amev', byz=(2,), dev=False, amev=True, invs=('Agreement', 'AbsCertificate'), props=('AbsOneCommit',)), dict(num=num, depth=45, seed=seed + 3, dump=True), cap),
     ]
     if tier != 'quick':
-        runs += [(net_cfg('net-nodev-n7', byz=(2, 1), n=7, dev=False, invs=('Agreement',)), dict(num=num, depth=60, seed=seed + 4, dump=True), cap),
-                 (net_cfg('net-nodev-honest', byz=(), dev=False, invs=('Agreement', 'Certificates')), dict(num=num, depth=45, seed=seed + 5, dump=True), cap)]
+        runs += [(net_cfg('net-nodev-n7', byz=(2, 1), n=7, dev=False, invs=('Agreement', 'AbsCertificate'), props=('AbsOneCommit',)), dict(num=num, depth=60, seed=seed + 4, dump=True), cap),
+                 (net_cfg('net-nodev-honest', byz=(), dev=False, invs=('Agreement', 'Certificates', 'AbsCertificate'), props=('AbsOneCommit',)), dict(num=num, depth=45, seed=seed + 5, dump=True), cap)]
     def one(x):
         it, sim, cap = x
         r = run_tlc(it, wd, workers=3, cap=cap, simulate=sim)
